@@ -424,16 +424,18 @@ func vcallAnonOrSkip(s *Server, c *vhConn) {
 // VH_C15_password_set_while_connected: requirepass is switched on at run time (CONFIG SET) while a connection is
 // open: from the next command on that connection is served only after AUTH with the right password - whoever set
 // the password, this connection or another one. The REAL connection closure of netServe serves the packets.
-//verif:cfg use=c08 b_connection=opened_while_no_password_is_set b_password_set_by=this_connection|another_connection b_then=GET|SET|AUTH_wrong+GET|AUTH_right+GET ignorego=1
+//verif:cfg use=c08 b_connection=opened_while_no_password_is_set,_first_command_PING|AUTH_(empty,_blank,_a_word,_no_argument) b_password_set_by=this_connection|another_connection b_then=GET|SET|AUTH_wrong+GET|AUTH_right+GET ignorego=1
 func VH_C15_password_set_while_connected() {
 	s := vhAckServer()
 	vhDo(s, "SET", "fleet", "truck1", "POINT", "1", "2")
 	self := vnondetBool()
 	var packets [][]byte
+	// the connection is open and has been served before: a PING, or an AUTH sent while no password is configured
+	// (blank, empty, some word, no argument at all) - none of which authenticates it for later
+	pre := [][]string{{"PING"}, {"AUTH", ""}, {"AUTH", "  "}, {"AUTH", "x"}, {"AUTH"}}[vchoose(5)]
+	packets = append(packets, vhEncode(pre...))
 	if self {
 		packets = append(packets, vhEncode("CONFIG", "SET", "requirepass", "pw"))
-	} else {
-		packets = append(packets, vhEncode("PING")) // the connection is open and has been served before ...
 	}
 	k := vchoose(4)
 	switch k {
